@@ -24,14 +24,17 @@ __CPROVER_assigns(ptr->val, vf_fetch_or_old, vf_fetch_ors, vf_fetch_or_ptr, vf_f
 __CPROVER_ensures(__CPROVER_return_value == vf_fetch_or_old && vf_fetch_ors == __CPROVER_old(vf_fetch_ors) + 1 && vf_fetch_or_ptr == ptr && vf_fetch_or_bits == v)
 __CPROVER_ensures((ptr->val & v) == v && vf_clock == __CPROVER_old(vf_clock) + 1 && vf_t_fetch_or == vf_clock);
 
+int vf_yielded; ABTI_xstream *vf_x0; ABTI_xstream *vf_resumed_on; /* the stream on which the caller continues after a yield / suspension */
 static inline void ABTI_ythread_yield(ABTI_xstream **pp, ABTI_ythread *p_self, ABTI_ythread_yield_kind kind, ABT_sync_event_type t, void *s)
 __CPROVER_requires(p_self->thread.type & ABTI_THREAD_TYPE_YIELDABLE)
-__CPROVER_assigns(vf_yields) __CPROVER_ensures(vf_yields == __CPROVER_old(vf_yields) + 1);
+__CPROVER_assigns(vf_yields, vf_yielded, *pp) __CPROVER_ensures(vf_yields == __CPROVER_old(vf_yields) + 1 && vf_yielded == 1)
+__CPROVER_ensures(*pp == vf_resumed_on); /* the caller may be resumed on ANOTHER stream (migration, shared pool, work stealing) */
 
 static inline void ABTI_ythread_suspend_join(ABTI_xstream **pp, ABTI_ythread *p_self, ABTI_ythread *p_target, ABT_sync_event_type t, void *s)
 __CPROVER_requires(p_self->thread.type & ABTI_THREAD_TYPE_YIELDABLE) /* only a ULT can be suspended */
-__CPROVER_assigns(vf_susp_joins, vf_susp_join_target)
-__CPROVER_ensures(vf_susp_joins == __CPROVER_old(vf_susp_joins) + 1 && vf_susp_join_target == p_target);
+__CPROVER_assigns(vf_susp_joins, vf_susp_join_target, *pp)
+__CPROVER_ensures(vf_susp_joins == __CPROVER_old(vf_susp_joins) + 1 && vf_susp_join_target == p_target)
+__CPROVER_ensures(*pp == vf_resumed_on);
 
 static inline void ABTD_atomic_release_store_ythread_context_ptr(ABTD_ythread_context_atomic_ptr *ptr, ABTD_ythread_context *p_ctx)
 __CPROVER_requires(__CPROVER_is_fresh(ptr, sizeof(*ptr)))
@@ -64,7 +67,9 @@ void h_thread_join(void)
     ABTI_local *l = NULL;
     if (caller == 1) { xs.p_thread = &self_task; l = (ABTI_local *)&xs; } else if (caller == 2) { xs.p_thread = &self_y.thread; l = (ABTI_local *)&xs; }
     vf_last_load_ptr = NULL; vf_state_loads = 0; vf_susp_joins = 0; vf_yields = 0; vf_fetch_ors = 0; vf_n_link = 0; vf_futex_suspends = 0; vf_clock = 1;
+    static ABTI_xstream xs2; xs2.p_thread = xs.p_thread; { int mv; vf_resumed_on = mv ? &xs2 : &xs; } vf_yielded = 0; vf_x0 = (ABTI_xstream *)l;
     thread_join(&l, tgt);
+    VF_ASSERT((vf_yielded || vf_susp_joins > 0) ? l == (ABTI_local *)vf_resumed_on : (caller == 0 ? l == NULL : l == (ABTI_local *)&xs), "after a join that yielded or blocked the caller's local handle names the stream it runs on NOW (the callers of thread_join -- join_many, free, free_many -- go on using it)");
     VF_ASSERT(vf_last_load_ptr == &tgt->state && vf_last_load_val == ABT_THREAD_STATE_TERMINATED,
               "join returns only after an acquire-load of the TARGET's state returned TERMINATED (its last event, on every path)");
     VF_ASSERT(caller == 2 || (vf_susp_joins == 0 && vf_yields == 0), "an external thread or a tasklet never yields or suspends in join");
